@@ -14,7 +14,9 @@ COMMON_NOTE = (
     "under coq/theories (tied to /repo by the correspondence run of this check, not by proof); "
     "harness/gen_tables.py (tables regenerated from /repo each run); extraction (ExtrOcamlBasic, "
     "ExtrOcamlString only) and ocaml/driver.ml; CPython dict/str/set semantics as modelled. "
-    "Print Assumptions output of every property theorem is recorded in the evidence file.")
+    "Print Assumptions output of every property theorem is recorded in the evidence file. Every check runs its "
+    "implementation-side part under four PYTHONHASHSEEDs (thorough: seven) and as many generator seeds; a replay file "
+    "carries the hash seed it was found under.")
 
 CHECKS = {
     "C03": {
@@ -503,7 +505,7 @@ def main():
         }],
         "checks": checks,
         "not_applicable": na,
-        "notes": "See DESIGN.md. known_findings.json lists open findings (KNOWN-FINDING lines) and fixed ones.",
+        "notes": "See DESIGN.md. known_findings.json lists open findings (KNOWN-FINDING lines) and fixed ones. Environment knobs of ./check: VERIF_SEED (generator seed), VERIF_HASHSEED (base PYTHONHASHSEED; the check adds three more, thorough six), VERIF_NO_HASH_SWEEP=1 (base hash seed only), PROV_REPO (another checkout of the library).",
     }
     with open(os.path.join(VERIF, "MANIFEST.json"), "w") as f:
         json.dump(m, f, indent=1)
